@@ -215,11 +215,16 @@ def _parse_report(blob: bytes, timed_out: bool, wstatus: int) -> dict:
     return res
 
 
-def run_invocation_fresh(inv: dict, hash_seed_value: int, timeout_s: float = 180.0) -> dict:
-    """The same invocation in a fresh interpreter started with the given PYTHONHASHSEED (cold process)."""
+def run_invocation_fresh(inv: dict, hash_seed_value: int, timeout_s: float = 180.0, start_env: typing.Optional[dict] = None) -> dict:
+    """The same invocation in a fresh interpreter started with the given PYTHONHASHSEED (cold process).
+    ``start_env`` is in the environment when the interpreter starts (locale and encoding are decided then)."""
     import subprocess
 
     env = dict(os.environ)
+    for k in ("LC_ALL", "LANG", "LC_CTYPE", "PYTHONUTF8", "PYTHONCOERCECLOCALE", "PYTHONIOENCODING"):
+        if start_env is not None:
+            env.pop(k, None)
+    env.update(start_env or {})
     env["PYTHONHASHSEED"] = str(hash_seed_value)
     env["PYTHONDONTWRITEBYTECODE"] = "1"
     here = os.path.dirname(os.path.dirname(os.path.abspath(__file__)))
